@@ -131,18 +131,40 @@ theorem ancestors_only_created (ff : Bool) (σ : List Item) (q : Path) :
 /-- H11 unpacked -/
 theorem h11_spec (t : Tree) (input : Path) (output : Option Path)
     (h : h11 b t input output = true) :
-    TreeOk b t ∧ plain (normalize input) = true ∧ normalize input ≠ [] ∧
+    InOk b t (normalize input) ∧
     ∀ out, output = some out → isFile b t input = false →
-      plain out = true ∧ out ≠ [] ∧
-      (resolve b out = resolve b (normalize input) ∨
-        noOverlap (resolve b (normalize input)) (resolve b out) = true) := by
-  simp only [h11, Bool.and_eq_true, decide_eq_true_eq] at h
-  obtain ⟨hok, ⟨hp, hne⟩, hout⟩ := h
-  refine ⟨treeOk_spec b t hok, hp, hne, ?_⟩
-  intro out ho hf
-  subst ho
-  simp only [hf, Bool.false_or, Bool.and_eq_true, Bool.or_eq_true, decide_eq_true_eq] at hout
-  exact ⟨hout.1.1, hout.1.2, hout.2⟩
+      rstem b out ≠ [] ∧
+      (rstem b out = rstem b (srcBase (normalize input)) ∨
+        noOverlap (rstem b (srcBase (normalize input))) (rstem b out) = true) := by
+  simp only [h11, treeOk, Bool.and_eq_true, decide_eq_true_eq] at h
+  obtain ⟨⟨hnd, htree⟩, ⟨⟨hfix, hrels⟩, hfs⟩, hout⟩ := h
+  refine ⟨⟨hnd, ?_, ?_, hfix, ?_, ?_, ?_⟩, ?_⟩
+  · intro hb; simpa [hb] using htree
+  · intro hb ke hke
+    simp only [hb, Bool.false_eq_true, if_false, List.all_eq_true, Bool.and_eq_true,
+      decide_eq_true_eq] at htree
+    exact ⟨(htree ke hke).1.1, (htree ke hke).1.2, (htree ke hke).2⟩
+  · intro k hk hpre
+    simp only [relsNormal, List.all_eq_true, Bool.or_eq_true, Bool.not_eq_true'] at hrels
+    rcases hrels k hk with h1 | h1
+    · rw [← Bool.not_eq_true, List.isPrefixOf_iff_prefix] at h1; exact absurd hpre h1
+    · exact List.all_eq_true.mpr h1
+  · intro hb
+    simp only [hb, if_true, Bool.and_eq_true, decide_eq_true_eq] at hfs
+    exact hfs.1
+  · intro hb hdot
+    simp only [hb, if_true, Bool.and_eq_true, decide_eq_true_eq, Bool.or_eq_true,
+      Bool.not_eq_true'] at hfs
+    rcases hfs.2 with h1 | h1
+    · exact absurd hdot h1
+    · intro hmem
+      have : (fileKeys t).contains (rstem b (srcBase (normalize input))) = true :=
+        List.contains_iff_mem.mpr hmem
+      rw [this] at h1; cases h1
+  · intro out ho hf
+    subst ho
+    simp only [hf, Bool.false_or, Bool.and_eq_true, Bool.or_eq_true, decide_eq_true_eq] at hout
+    exact hout
 
 /-- **collect_independent.** Inside H11 the collected work items are pairwise independent, for
 every enumeration order of the walk — so Part 1 applies to every run inside H11. -/
@@ -150,27 +172,38 @@ theorem collect_independent (t : Tree) (input : Path) (output : Option Path)
     (order : List Path) (wl : List Item) (hH : h11 b t input output = true)
     (hperm : order.Perm (collectWorkRes b t (normalize input)))
     (hc : collectWorkFrom b t input output order = .ok wl) : wl.Pairwise (Indep b) := by
-  obtain ⟨hok, hnin, hnin0, hout⟩ := h11_spec b t input output hH
-  have hwalk : ∀ s ∈ order, ∃ rel, baseOf b (normalize input) ++ rel ∈ fileKeys t ∧
-      rel.all Comp.isNormal = true ∧ s = normalize input ++ rel := by
+  obtain ⟨hok, hout⟩ := h11_spec b t input output hH
+  have hnn := normalize_nin_fix _ hok.sbfix
+  have hwalk : ∀ s ∈ order, ∃ rel, rstem b (srcBase (normalize input)) ++ rel ∈ fileKeys t ∧
+      rel.all Comp.isNormal = true ∧ normalize s = srcBase (normalize input) ++ rel ∧
+      srcBase (normalize input) ++ rel ≠ [] := by
     intro s hs
     have : s ∈ collectWorkRes b t (normalize input) := hperm.mem_iff.mp hs
-    exact walk_mirror b t _ hok hnin hnin0 s (List.mem_filter.mp this).1
+    obtain ⟨rel, h1, h2, h3, h4, _⟩ := walk_mirror b t _ hok hnn s (List.mem_filter.mp this).1
+    exact ⟨rel, h1, h2, h3, h4⟩
   have single : ∀ (p : Path) (o : Option Path), (addSourceIfMissing [] p o).Pairwise (Indep b) := by
     intro p o; simp [addSourceIfMissing]
+  have hsrc : ∀ rel, rel.all Comp.isNormal = true → srcBase (normalize input) ++ rel ≠ [] →
+      resolve b (srcBase (normalize input) ++ rel) = rstem b (srcBase (normalize input)) ++ rel := by
+    intro rel hn hne
+    apply resolve_append b _ rel hn
+    cases hb : b.fsys
+    · rw [rstem_mem b _ hb, hok.sbfix]; exact hne
+    · simp [hok.anz hb]
   cases output with
   | none =>
     simp only [collectWorkFrom, Except.ok.injEq] at hc
     subst hc
-    exact (inPlaceLoop_inv b (fileKeys t) _ hnin hnin0 hok.cwd hok.pf order [] hwalk
-      (fun _ h => by cases h) List.Pairwise.nil).2
+    exact (inPlaceLoop_inv b (fileKeys t) _ _ (bases_of_inOk b t _ _ _ hok hsrc) hok.pf order []
+      hwalk (fun _ h => by cases h) List.Pairwise.nil).2
   | some out =>
     simp only [collectWorkFrom] at hc
     cases hf : isFile b t input
     · simp only [hf, Bool.false_eq_true, if_false] at hc
-      obtain ⟨ho, ho0, hrel⟩ := hout out rfl hf
-      rw [resolve_plain b out ho ho0 hok.cwd, resolve_plain b _ hnin hnin0 hok.cwd] at hrel
-      exact (collectDirLoop_inv b (fileKeys t) _ out hnin hnin0 ho ho0 hok.cwd hok.pf hrel order
+      obtain ⟨hB0, hrel⟩ := hout out rfl hf
+      have hbase := bases_of_inOk b t _ out (rstem b out) hok
+        (fun rel hn _ => resolve_append b out rel hn (by simp [hB0]))
+      exact (collectDirLoop_inv b (fileKeys t) _ _ _ out hbase hok.pf hrel order
         [] wl hwalk (fun _ h => by cases h) List.Pairwise.nil hc).2
     · simp only [hf, if_true] at hc
       split at hc
@@ -183,9 +216,12 @@ theorem collect_independent (t : Tree) (input : Path) (output : Option Path)
           · cases hc
           · simp only [Except.ok.injEq] at hc; subst hc; exact single _ _
 
-/-- **mirror_bijective.** Directory input with an output location, inside H11, any walk order:
-* every work item is a `.lua`/`.luau` file `input/rel` of the tree and its destination is exactly
-  `output/rel` (same relative path `rel`, only `Normal` components);
+/-- **mirror_bijective.** Directory input with an output location, inside H11, any walk order.
+With `sb` the source prefix (the normalised input, or the empty path when that is `.`), `A` and
+`B` the places where input and output are looked up:
+* every work item is a `.lua`/`.luau` regular file `A/rel` of the tree, its source is `sb/rel` and
+  its destination is exactly `output/rel`, looked up at `B/rel` (same relative path `rel`, only
+  `Normal` components);
 * every `.lua`/`.luau` file under the input has a work item (exactly one: sources are pairwise
   distinct), destinations are pairwise distinct;
 * when the two locations are disjoint no destination is any item's source, so (with
@@ -195,72 +231,72 @@ theorem mirror_bijective (t : Tree) (input out : Path) (order : List Path) (wl :
     (hperm : order.Perm (collectWorkRes b t (normalize input)))
     (hc : collectWorkFrom b t input (some out) order = .ok wl) :
     (∀ it ∈ wl, ∃ rel, rel.all Comp.isNormal = true ∧
-        it.source = normalize input ++ rel ∧ it.output = out ++ rel ∧
+        it.source = srcBase (normalize input) ++ rel ∧ it.output = out ++ rel ∧
         isLuaPath it.source = true ∧
-        resolve b it.source = resolve b (normalize input) ++ rel ∧
-        resolve b it.output = resolve b out ++ rel ∧
+        resolve b it.source = rstem b (srcBase (normalize input)) ++ rel ∧
+        resolve b it.output = rstem b out ++ rel ∧
         (∃ c, t.get (resolve b it.source) = some (.file c))) ∧
-    (∀ s ∈ collectWorkRes b t (normalize input), ∃ it ∈ wl, it.source = s) ∧
+    (∀ s ∈ collectWorkRes b t (normalize input), ∃ it ∈ wl, it.source = normalize s) ∧
     wl.Pairwise (fun x y => x.source ≠ y.source ∧ resolve b x.output ≠ resolve b y.output) ∧
-    (noOverlap (resolve b (normalize input)) (resolve b out) = true →
+    (noOverlap (rstem b (srcBase (normalize input))) (rstem b out) = true →
       ∀ x ∈ wl, ∀ y ∈ wl, resolve b x.output ≠ resolve b y.source) := by
-  obtain ⟨hok, hnin, hnin0, hout⟩ := h11_spec b t input (some out) hH
-  obtain ⟨ho, ho0, hrel⟩ := hout out rfl hdir
-  have hRin := resolve_plain b _ hnin hnin0 hok.cwd
-  have hRout := resolve_plain b out ho ho0 hok.cwd
-  have hwalk : ∀ s ∈ order, ∃ rel, baseOf b (normalize input) ++ rel ∈ fileKeys t ∧
-      rel.all Comp.isNormal = true ∧ s = normalize input ++ rel := by
+  obtain ⟨hok, hout⟩ := h11_spec b t input (some out) hH
+  obtain ⟨hB0, hrel⟩ := hout out rfl hdir
+  have hnn := normalize_nin_fix _ hok.sbfix
+  have hwalk5 : ∀ s ∈ order, ∃ rel, rstem b (srcBase (normalize input)) ++ rel ∈ fileKeys t ∧
+      rel.all Comp.isNormal = true ∧ normalize s = srcBase (normalize input) ++ rel ∧
+      srcBase (normalize input) ++ rel ≠ [] ∧
+      isLuaPath s = isLuaPath (srcBase (normalize input) ++ rel) := by
     intro s hs
     have : s ∈ collectWorkRes b t (normalize input) := hperm.mem_iff.mp hs
-    exact walk_mirror b t _ hok hnin hnin0 s (List.mem_filter.mp this).1
-  have hplain : ∀ s ∈ order, normalize s = s := by
+    exact walk_mirror b t _ hok hnn s (List.mem_filter.mp this).1
+  have hwalk : ∀ s ∈ order, ∃ rel, rstem b (srcBase (normalize input)) ++ rel ∈ fileKeys t ∧
+      rel.all Comp.isNormal = true ∧ normalize s = srcBase (normalize input) ++ rel ∧
+      srcBase (normalize input) ++ rel ≠ [] := by
     intro s hs
-    obtain ⟨rel, _, hn, e⟩ := hwalk s hs
-    rw [e]; exact normalize_plain _ (plain_append _ _ hnin hn)
+    obtain ⟨rel, h1, h2, h3, h4, _⟩ := hwalk5 s hs
+    exact ⟨rel, h1, h2, h3, h4⟩
+  have hnorm2 : ∀ s ∈ order, normalize (normalize s) = normalize s := by
+    intro s hs
+    obtain ⟨rel, _, hn, e, hne⟩ := hwalk s hs
+    rw [e]; exact normalize_base_append _ rel hok.sbfix hn hne
   have hc' := hc
   simp only [collectWorkFrom, hdir, Bool.false_eq_true, if_false] at hc'
-  have hrel' := hrel
-  rw [hRout, hRin] at hrel'
-  obtain ⟨hm, hp⟩ := collectDirLoop_inv b (fileKeys t) _ out hnin hnin0 ho ho0 hok.cwd hok.pf hrel'
+  have hbase := bases_of_inOk b t _ out (rstem b out) hok
+    (fun rel hn _ => resolve_append b out rel hn (by simp [hB0]))
+  obtain ⟨hm, hp⟩ := collectDirLoop_inv b (fileKeys t) _ _ _ out hbase hok.pf hrel
     order [] wl hwalk (fun _ h => by cases h) List.Pairwise.nil hc'
   obtain ⟨hsrc, _, hcomp⟩ := collectDirLoop_sources _ out order [] wl hc'
   refine ⟨?_, ?_, ?_, ?_⟩
   · intro it hit
-    obtain ⟨rel, hk, hn, e1, e2⟩ := hm it hit
+    obtain ⟨rel, hk, hn, e1, e2, rs, ro⟩ := hm it hit
     have hlua : isLuaPath it.source = true := by
       rcases hsrc it hit with h | ⟨s, hs, e⟩
       · cases h
-      · rw [e, hplain s hs, hplain s hs]
+      · obtain ⟨rel', _, _, e', _, hl⟩ := hwalk5 s hs
+        rw [e, hnorm2 s hs, e', ← hl]
         have : s ∈ collectWorkRes b t (normalize input) := hperm.mem_iff.mp hs
         exact (List.mem_filter.mp this).2
-    have rs : resolve b it.source = baseOf b (normalize input) ++ rel := by
-      rw [e1, resolve_plain b _ (plain_append _ _ hnin hn) (by simp [hnin0]) hok.cwd,
-        baseOf_append b _ rel hnin0]
-    have ro : resolve b it.output = baseOf b out ++ rel := by
-      rw [e2, resolve_plain b _ (plain_append _ _ ho hn) (by simp [ho0]) hok.cwd,
-        baseOf_append b _ rel ho0]
-    refine ⟨rel, hn, e1, e2, hlua, by rw [rs, hRin], by rw [ro, hRout], ?_⟩
+    refine ⟨rel, hn, e1, e2, hlua, rs, ro, ?_⟩
     rw [rs]
     exact fileKeys_get t hok.nodup _ hk
   · intro s hs
     have hso : s ∈ order := hperm.mem_iff.mpr hs
     obtain ⟨it, hit, e⟩ := hcomp s hso
-    exact ⟨it, hit, by rw [e, hplain s hso, hplain s hso]⟩
+    exact ⟨it, hit, by rw [e, hnorm2 s hso]⟩
   · exact hp.imp (fun h => ⟨h.1, h.2.2.1⟩)
   · intro hno x hx y hy
     by_cases hxy : x = y
     · subst hxy
-      obtain ⟨rel, _, hn, e1, e2⟩ := hm x hx
-      rw [e1, e2, resolve_plain b _ (plain_append _ _ hnin hn) (by simp [hnin0]) hok.cwd,
-        resolve_plain b _ (plain_append _ _ ho hn) (by simp [ho0]) hok.cwd,
-        baseOf_append b _ rel hnin0, baseOf_append b _ rel ho0]
+      obtain ⟨rel, _, _, _, _, rs, ro⟩ := hm x hx
+      rw [rs, ro]
       intro e
-      rw [hRin, hRout] at hno
       simp only [noOverlap, Bool.and_eq_true, Bool.not_eq_true', ← Bool.not_eq_true,
         List.isPrefixOf_iff_prefix] at hno
-      have h1 : baseOf b out <+: baseOf b (normalize input) ++ rel := e ▸ List.prefix_append _ _
-      have h2 : baseOf b (normalize input) <+: baseOf b (normalize input) ++ rel :=
-        List.prefix_append _ _
+      have h1 : rstem b out <+: rstem b (srcBase (normalize input)) ++ rel :=
+        e ▸ List.prefix_append _ _
+      have h2 : rstem b (srcBase (normalize input)) <+:
+          rstem b (srcBase (normalize input)) ++ rel := List.prefix_append _ _
       rcases prefix_comparable h1 h2 with h | h
       · exact hno.2 h
       · exact hno.1 h
@@ -295,41 +331,64 @@ example : h11 exFsB exFsTree [.normal [1]] (some [.root, .normal [0], .normal [9
 example : h11 exFsB exFsTree [.normal [1]] none = true := by decide
 example : (collectWork exFsB exFsTree [.normal [1]] (some [.normal [9]])).toOption.map List.length
     = some 2 := by decide
+-- H11 now covers unclean outputs and inputs that start with `..`
+example : h11 exFsB exFsTree [.parent, .normal [0], .normal [1]]
+    (some [.cur, .normal [9], .parent, .normal [8]]) = true := by decide
+example : (collectWork exFsB exFsTree [.parent, .normal [0], .normal [1]]
+    (some [.normal [9]])).toOption.map List.length = some 2 := by decide
 
-/-- the unrestricted statement "collecting work never fails on a well-formed tree" -/
-def collect_total_full : Prop :=
-  ∀ (b : Backend) (t : Tree) (input out : Path), treeOk b t = true →
-    ∃ wl, collectWork b t input (some out) = .ok wl
+/-! ### regression: the witnesses of the fixed findings C11-F1 / C11-F1m
 
-/-- witness (known finding C11-F1): `darklua process . ../out` in `/r/src` -/
-theorem collect_total_full_false : ¬ collect_total_full := by
-  intro h
-  obtain ⟨wl, hwl⟩ := h ⟨true, [.root, .normal [0], .normal [1]]⟩ exFsTree [.cur]
-    [.parent, .normal [9]] (by decide)
-  have : (collectWork ⟨true, [.root, .normal [0], .normal [1]]⟩ exFsTree [.cur]
-      (some [.parent, .normal [9]])).toOption = none := by decide
-  rw [hwl] at this
-  cases this
+Before the fixes `darklua process . ../out` aborted with "unable to remove path prefix `.`" and
+memory resources collected nothing for the input `.`. The model follows the fixed code: both
+witnesses are inside H11 and are collected completely. -/
 
-/-- the unrestricted statement "every Lua file below the input gets a work item" for the input
-`.` on memory resources -/
-def dot_collects_full : Prop :=
-  ∀ (t : Tree) (out : Path), treeOk exMem t = true → ∀ k ∈ fileKeys t, isLuaPath k = true →
-    ∃ wl, collectWork exMem t [.cur] (some out) = .ok wl ∧ ∃ it ∈ wl, it.source = k
-
-/-- witness (known finding C11-F1m): nothing is collected -/
-theorem dot_collects_full_false : ¬ dot_collects_full := by
-  intro h
-  obtain ⟨wl, hwl, it, hit, _⟩ := h exTree [.normal [9]] (by decide)
-    [.normal [1], .normal nmA] (by decide) (by decide)
-  have : (collectWork exMem exTree [.cur] (some [.normal [9]])).toOption = some [] := by decide
-  rw [hwl] at this
-  simp only [Except.toOption, Option.some.injEq] at this
-  subst this
-  cases hit
-
+/-- C11-F1: working directory `/r/src`, input `.`, output `../out` -/
+def dotFs : Backend := ⟨true, [.root, .normal [0], .normal [1]]⟩
+example : h11 dotFs exFsTree [.cur] (some [.parent, .normal [9]]) = true := by decide
+example : (collectWork dotFs exFsTree [.cur] (some [.parent, .normal [9]])).toOption =
+    some [⟨[.normal nmA], [.parent, .normal [9], .normal nmA]⟩,
+          ⟨[.normal [2], .normal nmB], [.parent, .normal [9], .normal [2], .normal nmB]⟩] := by
+  decide
+example : resolve dotFs [.parent, .normal [9], .normal nmA] =
+    [.root, .normal [0], .normal [9], .normal nmA] := by decide
+/-- C11-F1m: memory resources, input `.`: inside H11 in place; with an output the run is in
+the overlap class C11-F2 (every relative location lies inside `.`) but is collected completely -/
 example : h11 exMem exTree [.cur] (some [.normal [9]]) = false := by decide
+example : classOverlap exMem exTree [.cur] (some [.normal [9]]) = true := by decide
+example : h11 exMem exTree [.cur] none = true := by decide
+example : (collectWork exMem exTree [.cur] (some [.normal [9]])).toOption.map List.length =
+    some 3 := by decide
 example : classDot [.cur] = true := by decide
+
+/-- the former `dot_collects_full` is now a theorem: on memory resources with the input `.`,
+every relative Lua key gets a work item and collecting never fails (no key is named `.`) -/
+theorem dot_collects (t : Tree) (out : Path) (k : Path) (e : Entry) (hk : (k, e) ∈ t)
+    (hf : isFile exMem t [.cur] = false) (hrel : isAbs (normalize k) = false) (hlua : isLuaPath (normalize k) = true) :
+    ∃ wl, collectWork exMem t [.cur] (some out) = .ok wl ∧
+      ∃ it ∈ wl, it.source = normalize (normalize (normalize k)) := by
+  have hwalkmem : normalize k ∈ collectWorkRes exMem t (normalize [.cur]) := by
+    simp only [collectWorkRes, List.mem_filter, hlua, and_true, walk, exMem, Bool.false_eq_true,
+      if_false, List.mem_filterMap]
+    exact ⟨(k, e), hk, by simp [normalize_cur, isWithin, hrel]⟩
+  -- with the empty prefix the loop cannot fail
+  have hloop : ∀ (order : List Path) (acc : List Item), ∃ wl,
+      collectDirLoop [] out order acc = .ok wl := by
+    intro order
+    induction order with
+    | nil => intro acc; exact ⟨acc, rfl⟩
+    | cons s rest ih =>
+      intro acc
+      simp only [collectDirLoop, stripPrefix, List.isPrefixOf, if_true, List.length_nil,
+        List.drop_zero]
+      exact ih _
+  obtain ⟨wl, hwl⟩ := hloop (collectWorkRes exMem t (normalize [.cur])) []
+  refine ⟨wl, ?_, ?_⟩
+  · simp only [collectWork, collectWorkFrom, hf, Bool.false_eq_true, if_false, normalize_cur,
+      srcBase, if_true]
+    rw [normalize_cur] at hwl
+    exact hwl
+  · exact (collectDirLoop_sources [] out _ [] wl hwl).2.2 _ hwalkmem
 
 /-! ## Part 2 — what fail-fast guarantees -/
 
